@@ -2,7 +2,7 @@
    Only pinned statements (`Check name : statement`), `Theorem .. exact lemma` and
    `Print Assumptions`.  Models: Bits/Natural.v, Bits/BitIter.v, Bits/BitWriter.v. *)
 From RS Require Import Lib.Tac Lib.Outcome Lib.Bits Lib.ByteSweep
-  Bits.Natural Bits.BitIter Bits.BitWriter Bits.ReaderNat.
+  Bits.Natural Bits.BitIter Bits.BitWriter Bits.ReaderNat Bits.ReaderFail.
 Import ListNotations.
 Local Open Scope N_scope.
 
@@ -136,3 +136,44 @@ Theorem C13_collect_bits : forall l,
               (length bytes * 8 = length l + pad)%nat.
 Proof. exact collect_bits_spec. Qed.
 Print Assumptions C13_collect_bits.
+
+(* 10. failed reads: a failing read_natural / read_u2 has consumed exactly the bits it looked
+   at (the unread bits are [nat_rest], nothing when the stream ran out), counters included *)
+Theorem C13_nat_rest_ok : forall ty_max bound l n rest,
+  read_nat ty_max bound l = Ok (n, rest) -> nat_rest l = Some rest.
+Proof. exact nat_rest_ok. Qed.
+Print Assumptions C13_nat_rest_ok.
+
+Theorem C13_nat_rest_none : forall ty_max bound l,
+  nat_rest l = None <-> read_nat ty_max bound l = Err EndOfStream.
+Proof. exact nat_rest_none. Qed.
+Print Assumptions C13_nat_rest_none.
+
+Theorem C13_nat_rest_suffix : forall l r, nat_rest l = Some r -> exists p, l = p ++ r.
+Proof. exact nat_rest_suffix. Qed.
+Print Assumptions C13_nat_rest_suffix.
+
+Theorem C13_reader_natural_state : forall ty_max bound it, bi_inv it ->
+  let l := bi_remaining it in
+  let '(res, st) := bi_read_natural_st ty_max bound it in
+  exists it', st = Some it' /\ bi_inv it' /\
+    bi_remaining it' = match nat_rest l with Some r => r | None => [] end /\
+    bi_total it' = bi_total it + N.of_nat (length l - length (bi_remaining it')) /\
+    res = match read_nat ty_max bound l with
+          | Ok (n, _) => Ok n | Err e => Err e | Panic c => Panic c | OutOfFuel => OutOfFuel
+          end.
+Proof. exact bi_read_natural_st_spec. Qed.
+Print Assumptions C13_reader_natural_state.
+
+Theorem C13_reader_u2_state : forall it, bi_inv it ->
+  let l := bi_remaining it in
+  let '(res, it') := bi_read_u2_st it in
+  bi_inv it' /\
+  match l with
+  | b1 :: b2 :: tl => res = Some (2 * b2n b1 + b2n b2) /\ bi_remaining it' = tl /\
+                      bi_total it' = bi_total it + 2
+  | [_] => res = None /\ bi_remaining it' = [] /\ bi_total it' = bi_total it + 1
+  | [] => res = None /\ it' = it
+  end.
+Proof. exact bi_read_u2_st_spec. Qed.
+Print Assumptions C13_reader_u2_state.
